@@ -264,7 +264,11 @@ def lean_build(targets):
     """Regenerate Extracted/*.lean from the current tree, then lake build.
     Returns (ok, log)."""
     from . import extract
-    with Lock("lake"):
+    # one lock per lake project: the shared name for /verif/lean (tools/lk uses the same file),
+    # a private one for a copy (LTV_LEAN, used when seeded changes are tried)
+    lock = "lake" if os.path.realpath(LEAN) == os.path.realpath(os.path.join(VERIF, "lean")) else \
+        "lake-" + hashlib.sha256(os.path.realpath(LEAN).encode()).hexdigest()[:8]
+    with Lock(lock):
         ex_err = extract.run_all()
         # a failed extractor removes its Extracted/*.lean, so exactly the theorems that depend on
         # it fail to build (and are reported as broken obligations); others are unaffected
